@@ -11,7 +11,7 @@ THEOREMS = ["IwModel.C06." + t for t in (
     "checkLedger_sound", "audit_sound", "writer_node_slots_ok",
     # writer of one data block (Model/KvBlk.lean): the slot clause by induction over the operations
     "blkinv_spec", "blkinv_create", "blkinv_sync", "blkinv_addkv", "blkinv_rmkv", "blkinv_updatev", "blkinv_compact",
-    "blkinv_history", "blkinv_history_from", "addkv_content", "rmkv_content", "updatev_content", "updatev_failure_loses_record",
+    "blkinv_history", "blkinv_history_from", "addkv_content", "rmkv_content", "updatev_content", "updatev_failure_keeps_block", "addkv_failure_keeps_block", "updatev_old_loses_record",
     "blkinv_checkSlots", "blkinv_checkSlots_node", "history_checkSlots")]
 MANIFEST = dict(
     level="proof",
@@ -165,6 +165,279 @@ def audit_images(ctx, drv, cases):
             os.unlink(p)
         except OSError:
             pass
+
+
+# ---------------------------------------------------------------------------------------------------
+# Link stream (explicit-link model, lean/IwModel/Model/KvLinks.lean; theorems linkinv_* of Props/C06.lean)
+#
+# After every put/delete of a non-WAL history the harness prints the node boundaries (`nodes`) and copies the
+# file (`image`).  The level sequence before/after an operation tells which structural step the code took (a node
+# of level l created at position p / the node at position p destroyed); `drv links` replays these steps on the
+# explicit-link model and compares it with the links it reads from the real file (Lean format reader): per level
+# the sequence of positions reached by following n[i] from the head, the levels, the back links, the tail link and
+# the per-level counters - exact equality.
+THEOREMS += ["IwModel.C06." + t for t in (
+    "links_slevels", "linkinv_empty", "find_bounds_chute", "linkinv_insert", "linkinv_remove", "linkinv_history",
+    "linkinv_iff_threading", "links_refine_nodes", "linkinv_audit_clean", "history_image_audits_clean")]
+
+MANIFEST["text"] += ("; the link clause is also proved inductively on an explicit-link model of one database (head links, tail link, counters; "
+                     "per node lvl, n[0..lvl], p0) that executes _lx_find_bounds and the link surgery of _lx_split_addkv / _lx_del_sblk_lw: "
+                     "LinkInv holds for a new database and is kept by every insertion (any position, any level) and every removal, hence by every "
+                     "history (linkinv_*), the model agrees with the node model of C01 on the level sequence (links_refine_nodes) and an image with "
+                     "its link fields passes levelErrs/linkErrs/tailOk (linkinv_audit_clean); after every put/delete of generated histories the "
+                     "model is compared, position by position and level by level, with the links read from the real file")
+MANIFEST["note"] += ("; link model: block numbers abstract (comparison by position in the level-0 chain), key comparison is an oracle fixed by the "
+                     "position the node model routes to; non-WAL images only")
+LINK_LEVELS = [0, 0, 1, 1, 2, 2, 3, 4, 5, 6]
+
+
+def gen_link_history(r, nbulk, nwaves, cursors=False):
+    """one or two plain-key databases; every put/del is followed by `nodes` and `image`.  With `cursors`, some waves
+    are a cursor walking back from the end that deletes record after record (`cur 0 del`, whole nodes go through
+    `_lx_del_sblk_lw` with the cursor's long-lived lookup context) while puts above the maximum create nodes in front"""
+    ops = ["open 0 1 0"]
+    ndb = r.choice([1, 1, 2])
+    present = {}
+    for i in range(1, ndb + 1):
+        ops.append("db %d 0" % i)
+        present[i] = set()
+    k_img = [0]
+    key = lambda k: G.H(k.to_bytes(4, "big"))
+
+    def after(i):
+        k_img[0] += 1
+        ops.append("nodes %d" % i)
+        ops.append("image @IMG%d" % k_img[0])
+
+    def put(i, k):
+        ops.append("put %d %s 0 %s 0 %d" % (i, key(k), G.H(bytes(r.randrange(256) for _ in range(r.choice([0, 1, 3, 9])))), r.choice(LINK_LEVELS)))
+        present[i].add(k)
+        after(i)
+
+    def dele(i, k):
+        ops.append("del %d %s 0" % (i, key(k)))
+        present[i].discard(k)
+        after(i)
+    univ = list(range(1000, 1000 + 4 * nbulk))
+    for i in present:
+        ks = r.sample(univ, nbulk // ndb)
+        mode = r.choice(["random", "random", "asc", "desc"])
+        if mode == "asc":
+            ks.sort()
+        elif mode == "desc":
+            ks.sort(reverse=True)
+        for k in ks:
+            put(i, k)
+    for _ in range(nwaves):
+        i = r.choice(list(present))
+        s = sorted(present[i])
+        kind = r.choice(["top", "bottom", "range", "range", "all", "refill", "refill"])
+        if cursors and r.random() < 0.6:
+            kind = "cwalk"
+        n = r.choice([20, 40, 70])
+        if kind == "cwalk":
+            ops.append("cur 0 open %d al" % i)
+            top = (s[-1] if s else 2000) + 1
+            nsteps = r.choice([80, 120, 160])
+            for step in range(nsteps):
+                if not s:
+                    break
+                ops.append("cur 0 to prev")
+                ops.append("cur 0 del")
+                present[i].discard(s.pop(0))
+                after(i)
+                # meanwhile other calls change the head links: a burst of ascending keys fills the first node and
+                # creates a node in front of it
+                for _ in range(36 if step == nsteps // 2 else 1 if step % 7 == 0 else 0):
+                    put(i, top)
+                    top += 1
+            ops.append("cur 0 close")
+        elif kind == "top":                      # greatest keys first: the first nodes of the chain go
+            for k in reversed(s[-n:]):
+                dele(i, k)
+        elif kind == "bottom":                 # smallest keys: the last nodes go
+            for k in s[:n]:
+                dele(i, k)
+        elif kind == "range" and s:
+            a = r.randrange(len(s))
+            part = s[a:a + n]
+            if r.random() < 0.5:
+                r.shuffle(part)
+            for k in part:
+                dele(i, k)
+        elif kind == "all":                    # empty the database (at most 160 keys per wave), then start again
+            part = s[:160] if r.random() < 0.5 else s[-160:]
+            if r.random() < 0.5:
+                r.shuffle(part)
+            for k in part:
+                dele(i, k)
+        else:
+            how = r.choice(["random", "above", "below"])
+            if how == "above":                 # ascending keys above the maximum: every new node goes in front
+                base = (s[-1] if s else 0) + 1
+                ks = [base + j for j in range(n)]
+            elif how == "below" and s and s[0] > n:   # descending keys below the minimum: new nodes at the end
+                ks = [s[0] - 1 - j for j in range(n)]
+            else:
+                ks = r.sample(univ, n)
+            for k in ks:
+                put(i, k)
+    ops.append("close")
+    return ops
+
+
+def link_step(prev, cur):
+    """the structural step between two level sequences: ('ins', pos, lvl) | ('rm', pos) | None (unchanged) | 'bad'"""
+    if cur == prev:
+        return None
+    i = 0
+    while i < len(prev) and i < len(cur) and prev[i] == cur[i]:
+        i += 1
+    if len(cur) == len(prev) + 1 and prev[i:] == cur[i + 1:]:
+        return ("ins", i, cur[i])
+    if len(cur) + 1 == len(prev) and prev[i + 1:] == cur[i:]:
+        return ("rm", i)
+    return "bad"
+
+
+def stale_cursor_dels(ops, raw):
+    """indices of `cur c del` ops that remove a node although the same cursor already removed one since it was
+    opened or positioned by key (finding C06-CURDBLK: its lookup context still holds the database block it read then)"""
+    out, removed, prev = set(), {}, {}
+    for j, l in enumerate(ops):
+        w = l.split()
+        if w[0] == "cur" and w[2] in ("open", "tokey"):
+            removed[w[1]] = 0
+        elif w[0] == "cur" and w[2] == "del" and j + 1 < len(ops) and ops[j + 1].startswith("nodes "):
+            try:
+                cur = len(raw[j + 1].split()) - 1
+            except AttributeError:
+                continue
+            i = ops[j + 1].split()[1]
+            if i in prev and cur < prev[i]:
+                if removed.get(w[1], 0) > 0:
+                    out.add(j)
+                removed[w[1]] = removed.get(w[1], 0) + 1
+        if w[0] == "nodes" and isinstance(raw[j], str):
+            prev[w[1]] = len(raw[j].split()) - 1
+    return out
+
+
+def link_stream(ctx, h, drv, n, nbulk, nwaves, label, cursors=False):
+    r = C.Rng(ctx.seed, "c06/links/" + label)
+    d = os.path.join(C.scratch(), "img")
+    os.makedirs(d, exist_ok=True)
+    cases = []
+    for idx in range(n):
+        ops = [l.replace("@IMG", os.path.join(d, "lk%s-%d-" % (label, idx))) for l in gen_link_history(r, nbulk, nwaves, cursors)]
+        cases.append(Case("links", ops, None, key=hash(tuple(ops))))
+    ctx.sample(dict(kind="links", n_ops=len(cases[0].ops), first_ops=[l[:80] for l in cases[0].ops[:8]]))
+    canon = lambda l: "image" if l.startswith("image ") else l
+    probs = differential(ctx, [h, C.scratch() + "/kv6-lk%s.db" % label], [drv, "kv"] if drv else None, cases, timeout=900, canon=canon)
+    # divergences are held back until the audit has judged the case: what follows a file corruption that an open
+    # finding explains (C06-CURDBLK) is not a second, independent correspondence failure
+    pending, excused = [], {}
+
+    def flush():
+        for c, idx, msg in pending:
+            if id(c) in excused and idx >= excused[id(c)]:
+                continue
+            ctx.corr_broken.append(msg)
+        del pending[:]
+    for c, p in probs:
+        if p[0] == "diverge":
+            pending.append((c, p[1] - 1, "links: model/implementation diverge at op %d `%s`: impl `%s` model `%s`" % (p[1], c.ops[p[1]][:100], p[2][:160], p[3][:160])))
+        else:
+            ctx.fail(dict(c01.signature(c, p), stream="links-cur" if cursors else "links"), dict(ops=c.ops, detail=p[1:]), str(p[1])[:400])
+    if not drv:
+        flush()
+        return
+    # replay on the explicit-link model
+    lines, owner = [], []          # owner[k] = (case, op index) for the k-th line sent
+    pre_suspects = []
+    for c in cases:
+        if c.impl is None:
+            continue
+        lines.append("reset")
+        owner.append((c, -1))
+        levels = {}
+        for j, (l, o) in enumerate(zip(c.ops, c.raw)):
+            w = l.split()
+            if w[0] == "nodes":
+                i = int(w[1])
+                try:
+                    cur = [int(x.split("/")[1]) for x in o.split()[1:]]
+                except (IndexError, ValueError):
+                    ctx.corr_broken.append("links: unreadable nodes line `%s`" % o[:100])
+                    break
+                prev = levels.get(i, [])
+                st = link_step(prev, cur)
+                levels[i] = cur
+                if st == "bad":
+                    pending.append((c, j - 1, "links: one operation changed the level sequence by more than one node: %s -> %s (op `%s`)" % (prev[:40], cur[:40], c.ops[j - 1][:80])))
+                    if j + 1 < len(c.ops) and c.ops[j + 1].startswith("image "):
+                        pre_suspects.append((c, j + 1, c.ops[j + 1].split()[1]))     # let the audit judge this image
+                    break
+                if st and c.ops[j - 1].startswith("cur "):
+                    ctx.hist("links:cursor_rm")
+                if st and st[0] == "ins":
+                    ctx.hist("links:ins_" + ("only" if not prev else "front" if st[1] == 0 else "end" if st[1] == len(prev) else "mid"))
+                    if prev and st[2] > max(prev):
+                        ctx.hist("links:ins_newtop")
+                    lines.append("ins %d %d %d" % (i, st[1], st[2]))
+                    owner.append((c, j))
+                elif st:
+                    ctx.hist("links:rm_" + ("only" if len(prev) == 1 else "first" if st[1] == 0 else "last" if st[1] == len(prev) - 1 else "mid"))
+                    if len(prev) > 1 and prev[st[1]] > max(prev[:st[1]] + prev[st[1] + 1:]):
+                        ctx.hist("links:rm_top")
+                    lines.append("rm %d %d" % (i, st[1]))
+                    owner.append((c, j))
+            elif w[0] == "image" and o.split()[1] not in ("0", "-1"):
+                i = int(c.ops[j - 1].split()[1])
+                lines.append("cmp %d %s" % (i, w[1]))
+                owner.append((c, j))
+    rc, out, e = C.run_lines([drv, "links"], lines, timeout=900)
+    if rc != 0 or len(out) != len(lines):
+        ctx.corr_broken.append("links: model driver failed: rc=%s got %d of %d lines %s" % (rc, len(out), len(lines), e[-300:]))
+        flush()
+        return
+    bad_cases = set(id(c) for c, _, _ in pre_suspects)
+    suspects = list(pre_suspects)
+    for l, o, (c, j) in zip(lines, out, owner):
+        if not l.startswith("cmp "):
+            continue
+        p = l.split()[2]
+        if o.startswith("cmp ok"):
+            ctx.hist("links:cmp_ok")
+            ctx.cov["traces_validated_against_impl"] += 1
+            ctx.case(("lk", p))
+        else:
+            ctx.hist("links:cmp_BAD")
+            if id(c) not in bad_cases:
+                bad_cases.add(id(c))
+                pending.append((c, j - 2, "links: file differs from the explicit-link model after op %d `%s`: %s" % (j - 2, c.ops[j - 2][:80], o[:300])))
+                suspects.append((c, j, p))
+                continue
+        try:
+            os.unlink(p)
+        except OSError:
+            pass
+    # a divergence means the model is wrong or the file's links are: let the audit decide on the image
+    if suspects:
+        rc, out, e = C.run_lines([drv, "fmt"], ["audit %s 0" % p for _, _, p in suspects], timeout=300)
+        for (c, j, p), line in zip(suspects, out if rc == 0 else []):
+            head = line.split(" | ")[0]
+            if not head.startswith("audit ok"):
+                cls = re.sub(r"\d+", "N", head)[:80]
+                trig = "cursor-del-after-cursor-node-del" if (j - 2) in stale_cursor_dels(c.ops, c.raw) else "-"
+                if not ctx.fail(dict(kind="audit", cls=cls, stream="links", trigger=trig), dict(ops=c.ops[:j + 1], audit=head),
+                                "file image not well-formed (link stream): " + head[:300]):
+                    excused[id(c)] = j - 2          # explained by an open finding
+            try:
+                os.unlink(p)
+            except OSError:
+                pass
+    flush()
 
 
 def explore(ctx, h, drv, n, nops, label):
@@ -364,7 +637,7 @@ MAXKVSZ = 0xfffffff
 def explore_oversize(ctx, h, drv, n, label):
     """`iwkv_put` of a record larger than IWKV_MAX_KVSZ is refused (IWKV_ERROR_MAXKVSZ); oracle: the store and the file are as before
     (old value still readable, image audits clean with the reference contents). Oracle only: the Lean block model is not run on
-    256 MB values (see design notes: the model states the behaviour as theorem `updatev_failure_loses_record`)."""
+    256 MB values (see design notes: the model states the behaviour as theorem `updatev_failure_keeps_block`)."""
     r = C.Rng(ctx.seed, "c06big/" + label)
     d = os.path.join(C.scratch(), "imgo")
     os.makedirs(d, exist_ok=True)
@@ -432,9 +705,13 @@ def run(ctx):
     drv = C.drv_path() if drv_ok else None
     if ctx.tier == "quick":
         explore(ctx, h, drv, 40, 250, "q")
+        link_stream(ctx, h, drv, 12, 150, 8, "q")           # link stream (explicit-link model)
+        link_stream(ctx, h, drv, 4, 150, 8, "qc", cursors=True)
     else:
         explore(ctx, h, drv, 500, 300, "t")
         explore(ctx, h, drv, 10, 6000, "tl")
+        link_stream(ctx, h, drv, 60, 300, 12, "t")          # link stream (explicit-link model)
+        link_stream(ctx, h, drv, 30, 300, 12, "tc", cursors=True)
     if drv:
         ctx.cov["rule"] += ("; block stream: one database with <= 32 keys (one node, one data block), puts / cursor sets with growing and shrinking values, "
                             "deletes, forced compaction, an image after EVERY op: the Lean writer model of one data block (IwModel.KvBlk) replays the ops and "
@@ -445,7 +722,7 @@ def run(ctx):
         else:
             explore_block(ctx, h, drv, 400, 200, "bt")
             explore_block(ctx, h, drv, 20, 1500, "btl")
-    if ctx.proof_broken or ctx.corr_broken:
+    if (ctx.proof_broken or ctx.corr_broken) and not ctx.violations:
         explore(ctx, h, drv, 80, 250, "search")
 
 
